@@ -121,6 +121,7 @@ func TestC07(t *testing.T) {
 	defer s.Finish()
 	s.Guard(func() { Cfg() })
 	c07Part.Run(s, hx.PerShard(hx.Pick(40000, 800000)))
+	c07Part.RunConcurrent(s, 8, hx.Pick(250, 4000))
 }
 
 // ------------------------------------------------------------------ C11 map to scalar field
@@ -235,4 +236,5 @@ func TestC11(t *testing.T) {
 	defer s.Finish()
 	s.Guard(func() { Cfg() })
 	c11Part.Run(s, hx.PerShard(hx.Pick(40000, 800000)))
+	c11Part.RunConcurrent(s, 8, hx.Pick(250, 4000))
 }
